@@ -14,14 +14,33 @@ Expected(ev) ==
       [] ev.op = "complement" -> Complement(ev.a, ev.b)
       [] ev.op = "intersect"  -> Intersect(ev.a, ev.b)
 
-Judge(ev, st) ==
-    IF ev.panic # "" THEN Fail("panic", "always succeeds", ev.panic, <<>>)
-    ELSE LET exp == Expected(ev) IN
-         IF ev.ivs = exp THEN Pass(<<>>)
-         ELSE IF ~IsNormal(ev.ivs) THEN Fail("notnormal", exp, ev.ivs, <<>>)
-         ELSE Fail("set", exp, ev.ivs, <<>>)
+\* ---- sessions: Map values kept alive ----------------------------------------
+\* st.maps: the sets of the session (normal forms).  An operation appends its result and changes neither its
+\* arguments nor any earlier result (all maps are re-read after every operation).
+SessionOps == {"snew", "sunion", "scomplement", "sintersect"}
+SessionExpected(ev, st) ==
+    CASE ev.op = "snew"        -> [i \in 1..Len(ev.init) |-> Normal(SetOf(ev.init[i]))]
+      [] ev.op = "sunion"      -> Append(st.maps, Union(st.maps[ev.x + 1], st.maps[ev.y + 1]))
+      [] ev.op = "scomplement" -> Append(st.maps, Complement(st.maps[ev.x + 1], st.maps[ev.y + 1]))
+      [] ev.op = "sintersect"  -> Append(st.maps, Intersect(st.maps[ev.x + 1], st.maps[ev.y + 1]))
+JudgeSession(ev, st) ==
+    IF ev.panic # "" THEN Fail("panic", "always succeeds", ev.panic, [maps |-> <<>>, dead |-> TRUE])
+    ELSE IF ev.op # "snew" /\ st.dead THEN Pass(st)
+    ELSE LET exp == SessionExpected(ev, st) IN
+         IF ev.maps = exp THEN Pass([maps |-> exp, dead |-> FALSE])
+         ELSE IF Len(ev.maps) = Len(exp) /\ ev.maps[Len(exp)] = exp[Len(exp)]
+           THEN Fail("inputchanged", exp, ev.maps, [maps |-> exp, dead |-> TRUE])    \* the new result is right, an older map is not
+         ELSE Fail("set", exp, ev.maps, [maps |-> exp, dead |-> TRUE])
 
-Init == /\ sh \in Shards /\ l = Bounds[sh] + 1 /\ j = Pass(<<>>) /\ bad = <<>>
+Judge(ev, st) ==
+    IF ev.op \in SessionOps THEN JudgeSession(ev, st) ELSE
+    IF ev.panic # "" THEN Fail("panic", "always succeeds", ev.panic, st)
+    ELSE LET exp == Expected(ev) IN
+         IF ev.ivs = exp THEN Pass(st)
+         ELSE IF ~IsNormal(ev.ivs) THEN Fail("notnormal", exp, ev.ivs, st)
+         ELSE Fail("set", exp, ev.ivs, st)
+
+Init == /\ sh \in Shards /\ l = Bounds[sh] + 1 /\ j = Pass([maps |-> <<>>, dead |-> TRUE]) /\ bad = <<>>
 Next == /\ l <= Bounds[sh + 1]
         /\ j' = Judge(TraceLog[l], j.next)
         /\ l' = l + 1
